@@ -154,8 +154,10 @@ CLAIMS = {
              "within the circle through its farthest vertex (C01_inside_within_radius); rigid placements keep convexity "
              "(C01_placed_convex).  The built-in regular polygons are closed and convex for every n >= 3 (C01_polygon_closed, "
              "C01_polygon_convex: trigonometric proof about the model's constructor, which is compared with LineShape::polygon's "
-             "items on every case), so for them no premise about the shape is left (C01_scored_regular_polygon_packing_no_overlap).  "
-             "That congruent copies cannot nest is not proved.  The monitor "
+             "items on every case), so for them no premise about the shape is left, and two placed copies of a regular polygon cannot be nested "
+             "(C01_regular_polygons_cannot_nest) - hence C01_scored_regular_polygon_packing_disjoint: in a scored state of regular "
+             "polygons no two placed copies, for any pair and any lattice translate, share an interior point.  For general convex "
+             "radial shapes convexity stays a premise and nesting an exception.  The monitor "
              "searches all generated states (flat cells, copies near opposite faces, aligned/clamped states, optimiser outputs) "
              "with an independent separating-axis lattice oracle over one more shell than needed.",
         note=GEOM_NOTE),
